@@ -130,14 +130,15 @@ def hitenum(hit, aln, ori):
         return e
     if not hit:
         return [('hitenum-empty', 'empty HitEnum for a record with %d pair(s)' % len(aln))]
-    rp, ops = hitenum_replay(hit, aln[0], ori)
+    rp, ops = hitenum_replay(hit, tuple(aln[0]), ori)
     if rp is None:
         return [('hitenum-syntax', 'HitEnum %r is not (\\d+[MDI])+' % hit[:80])]
     if any(int(n) == 0 for n, _ in ops):
         e.append(('hitenum-zero-run', 'run of length 0 in %r' % hit[:80]))
-    if rp != list(aln):
-        e.append(('hitenum-replay', 'replay of %r from %s gives %s..., listed %s...' % (
-            hit[:60], aln[0], _firstdiff(rp, aln), '')))
+    aln = [tuple(p) for p in aln]
+    if rp != aln:
+        e.append(('hitenum-replay', 'replay of %r from %s differs from the listed pairs: %s' % (
+            hit[:60], aln[0], _firstdiff(rp, aln))))
     if ops[0][1] != 'M' or ops[-1][1] != 'M':
         e.append(('hitenum-ends', 'HitEnum %r does not start and end with M' % hit[:80]))
     if any(x[1] == y[1] for x, y in zip(ops, ops[1:])):
@@ -197,14 +198,18 @@ def rescore(row, refs, qs, P, written_conf=None):
                     e.append(('label-counted-twice', 'label %s%d twice in one segment' % k))
                 seen.add(k)
         if prs:
+            # a label is inside the span when its coordinate lies strictly between the coordinates of the segment's
+            # outermost paired labels (labels coincident with a boundary label are not "inside")
             rl = [p.reference.siteId for p in prs]
-            ql = [p.query.siteId for p in prs]
+            lo, hi = R[min(rl) - 1], R[max(rl) - 1]
             for r in range(min(rl), max(rl) + 1):
-                if ('r', r) not in seen:
+                if lo < R[r - 1] < hi and ('r', r) not in seen:
                     e.append(('label-unaccounted', 'reference label %d inside the segment span is neither paired nor '
                                                    'penalised' % r))
+            ql = [p.query.siteId for p in prs]
+            lo, hi = sorted((Q[min(ql) - 1], Q[max(ql) - 1]))
             for q in range(min(ql), max(ql) + 1):
-                if ('q', q) not in seen:
+                if lo < Q[q - 1] < hi and ('q', q) not in seen:
                     e.append(('label-unaccounted', 'query label %d inside the segment span is neither paired nor '
                                                    'penalised' % q))
     if abs(tot - row.confidence) > 1e-6 * max(1.0, abs(tot)):
